@@ -32,6 +32,8 @@ CONSTANTS Params,        \* parameter names
           Vals,          \* abstract values a parameter can take ("none" is the default of fillable parameters)
           Fills,         \* subset of Params that fit() may fill in when "none"
           DataSets,      \* ids of training sets
+          Clonable,      \* FALSE for classes whose constructor needs a TRAINED nested estimator (IVectorMachine's ubm):
+                         \* sklearn's clone() clones nested estimators unfitted, so clone() raises -- as implemented
           Refit,         \* TRUE: fit() on a fitted object starts afresh (k-means, WCCN, whitening, i-vector);
                          \* FALSE: it continues from the learned state (GMM, ISV, JFA: GmmFit.tla, Determinism.tla),
                          \* which is another question -- such objects are fitted once in this model
@@ -80,6 +82,7 @@ CloneCfg(c) == IF "CLONE_DROPS_PARAM" \in Dev
                THEN [c EXCEPT ![CHOOSE p \in Params \ Fills : TRUE] = Default[CHOOSE p \in Params \ Fills : TRUE]]
                ELSE c
 Clone == \E i \in 1..Len(objs) :
+    /\ Clonable
     /\ Len(objs) < MaxObjs /\ Len(hist) < MaxLen
     /\ objs' = Append(objs, Obj(CloneCfg(objs[i].cfg), FALSE, NoState))
     /\ Log("Clone", i, Len(objs) + 1, 0)
@@ -120,7 +123,8 @@ NoCrossTalk ==
     [][Stepped => \A n \in 1..Len(objs) : (n # Last.i /\ n # Last.j) => objs'[n] = objs[n]]_vars
 \* what an object has learned is a function of the configuration it had when fitted and of the data
 LearnedIsFunctionOfCfgAndData ==
-    \A n \in 1..Len(objs) : objs[n].fitted => \E c \in CtorCfgs, d \in DataSets : objs[n].gen = Learned(c, d)
+    \A n \in 1..Len(objs) : objs[n].fitted =>
+        \E c \in [Params -> Vals \cup {"filled"}], d \in DataSets : objs[n].gen = Learned(c, d)
 
 \* ---------------- export of complete behaviours (M2)
 Export == IF Len(hist) = MaxLen
